@@ -29,6 +29,7 @@ pub fn replay_file(reg: &dyn Registry, id: &str, path: &str) -> i32 {
         Some("jitter") => replay_jitter(reg, r),
         Some("schedule") => replay_schedule(reg, r),
         Some("jump-witness") | Some("collision") | Some("commute") => replay_state_ops(reg, r),
+        Some("ctor") => replay_ctor(reg, r),
         _ => {
             println!("no dedicated replayer for this record; its content is the reproduction recipe:\n{}", serde_json::to_string_pretty(r).unwrap());
             0
@@ -278,6 +279,24 @@ fn replay_state_ops(reg: &dyn Registry, r: &Value) -> i32 {
     }
     println!("{}", serde_json::to_string_pretty(r).unwrap());
     0
+}
+
+/// {"kind":"ctor","type":T,"ctor":{"from_seed":hex}|{"seed_from_u64":x}|...}: construct and show the state
+/// image and the first outputs (the recorded message says what was expected)
+fn replay_ctor(reg: &dyn Registry, r: &Value) -> i32 {
+    match make(reg, r, "ctor") {
+        Some(mut g) => {
+            println!("  state image: {:?}", g.ser().map(|i| crate::evidence::hex(&i[..i.len().min(64)])));
+            let outs: Vec<String> = (0..4).map(|_| format!("{:#x}", g.next_u64())).collect();
+            println!("  first outputs (next_u64): {:?}", outs);
+            println!("constructor re-executed; compare with the recorded expectation above");
+            0
+        }
+        None => {
+            println!("{}", serde_json::to_string_pretty(r).unwrap());
+            0
+        }
+    }
 }
 
 #[allow(dead_code)]
